@@ -183,7 +183,14 @@ def check_F2(ctx, facts, cfg):
     # reader refuses frames shorter than the trailer before slicing
     short = False
     for c in comparisons(r):
-        if c['rel'] in ('<', '<=') and const_int(c['rhs_op']) is not None and const_int(c['rhs_op']) >= width and c['lhs'] is not None \
+        rhs_min = const_int(c['rhs_op'])
+        if rhs_min is None and c['rhs'] is not None:
+            for _b, mt in rc:
+                if mt['dest']['l'] in rf.backward([c['rhs']]) and cname(mt) in ('core::cmp::max', 'core::cmp::Ord::max'):
+                    ks = [const_int(a) for a in mt['args'] if const_int(a) is not None]
+                    if ks:
+                        rhs_min = max(ks)
+        if c['rel'] in ('<', '<=') and rhs_min is not None and rhs_min >= width and c['lhs'] is not None \
                 and derives_from_call(r, rf, c['lhs'], {'core::slice::<impl [T]>::len'}):
             if all(r.edge_dominates(c['false_edge'], b) for b, t in idx):
                 short = True
